@@ -19,7 +19,7 @@ ORACLES = {
 JUNCTIONS = ["0", "1", "255", "256", "65535", "65536", "4294967295", "4294967296", str(2**64 - 1), str(2**64), str(2**128 - 1), str(2**128),
              str(2**256 - 1), str(2**256), str(2**300), "007", "00000000000000000000000000000000000001", "١٢٣", "²", "½", "一", "Alice", "alice", "a" * 30,
              "a" * 31, "a" * 32, "b" * 33, "é" * 15, "é" * 16, "😀" * 8, "stash", "polkadot", " ", "a b", "0x10", "-1", "1e3", "x" * 64, "\n", "1\n",
-             "a ", " a", "7 ", " 7", "a\t", "a\u3000", "\u00a0b", "a" * 31 + " ", " " + "a" * 31, "12\u2003"]
+             "9" * 4301, "0" * 4400 + "7", "1" * 78, "9" * 77, "a ", " a", "7 ", " 7", "a\t", "a\u3000", "\u00a0b", "a" * 31 + " ", " " + "a" * 31, "12\u2003"]
 
 
 def rand_path(rng):
@@ -104,7 +104,7 @@ def relations(rng, tier, rpt):
     for i in range(15 if tier == "quick" else 400):
         c = SubstrateCoins[COINS[i % len(COINS)]]
         seed = bytes(rng.randrange(256) for _ in range(32))
-        good = [j for j in JUNCTIONS if j not in (str(2**256), str(2**300))]
+        good = [j for j in JUNCTIONS if not (j.isdecimal() and (len(j.lstrip("0")) > 78 or int(j.lstrip("0") or "0") >= 2**256))]
         p = ["//" + rng.choice(good) for _ in range(rng.randrange(0, 3))]
         q = ["/" + rng.choice(good) for _ in range(rng.randrange(1, 3))]
         m = Substrate.FromSeed(seed, c)
